@@ -1,8 +1,124 @@
-/- Model driver for C05 (stub: no ops yet). -/
+/-
+  Model driver for C05 (sunpath.py).  Line protocol: see DrvCore.  Imports only Mathlib-free files.
+  Floats travel as 16-hex-digit IEEE bit patterns in both directions.
+-/
 import Ladybug.DrvCore
+import Ladybug.Model.Sun
+
+open Drv
 
 namespace DrvC05
-def handle (_toks : List String) : String := "bad-op"
+
+def showSErr : Sun.SErr → String
+  | .assert => "err:assert"
+
+def showCalErr : Cal.Err → String
+  | .value => "err:value"
+  | .index => "err:index"
+  | .type => "err:type"
+
+def fb (x : Float) : String := showFloatBits x
+
+def show3 (v : Float × Float × Float) : String := s!"{fb v.1} {fb v.2.1} {fb v.2.2}"
+
+def showSun (s : Sun.SunOut Float) : String :=
+  s!"ok {s.dt.month} {s.dt.day} {s.dt.hour} {s.dt.minute} {showBool s.dt.leap} {fb s.altitude} {fb s.azimuth} {show3 s.vec} {show3 s.rev} {showBool s.duringDay} {fb s.azFromY}"
+
+def showE (r : Except Sun.EErr (Sun.SunOut Float)) : String :=
+  match r with
+  | .ok s => showSun s
+  | .error (.dt e) => showCalErr e
+  | .error (.sun e) => showSErr e
+
+def tz? (s : String) : Option (Option Float) :=
+  if s = "none" then some none else (fun f => some f) <$> floatBits? s
+
+/-- lat lon tz north spleap -/
+def cfg? (lat lon tz north leap : String) : Option (Sun.Cfg Float) := do
+  let la ← floatBits? lat
+  let lo ← floatBits? lon
+  let t ← tz? tz
+  let n ← floatBits? north
+  let l ← bool? leap
+  pure ⟨la, lo, t, n, l⟩
+
+def ofN (n : Nat) : Float := n.toFloat
+
+/-- `int(f)` of a finite float, and the IEEE product `(f - int(f)) * 60`. -/
+def splitHour (f : Float) : Option (Int × Rat) := do
+  let q ← Py.ratOfFloatBits f.toBits
+  let h := Py.truncRat q
+  let p ← Py.ratOfFloatBits ((f - Float.ofInt h) * 60.0).toBits
+  pure (h, p)
+
+def handle (toks : List String) : String :=
+  match toks with
+  | ["days", y, m, d] =>
+    match y.toNat?, m.toNat?, d.toNat? with
+    | some y, some m, some d => s!"ok {Sun.daysFrom010119 y m d}"
+    | _, _, _ => "bad-op"
+  | ["frac", m] =>
+    match m.toNat? with
+    | some m => s!"ok {Sun.dayFracHundredths m}"
+    | none => "bad-op"
+  | ["hm", bits] =>
+    match floatBits? bits with
+    | some f =>
+      match splitHour f with
+      | some (h, p) => let r := Sun.hmOfFloatHour h p; s!"ok {r.1} {r.2}"
+      | none => "err:value"
+    | none => "bad-op"
+  | ["geom", tz, leap, mo, da, h, mi] =>
+    match floatBits? tz, bool? leap, mo.toNat?, da.toNat?, h.toNat?, mi.toNat? with
+    | some tz, some leap, some mo, some da, some h, some mi =>
+      let year := if leap then 2016 else 2017
+      let jd := Sun.julianDay (ofN (Sun.daysFrom010119 year mo da))
+        (ofN (Sun.dayFracHundredths (mi + h * 60)) / 100.0) tz
+      let g := Sun.solarGeometry jd
+      s!"ok {fb g.1} {fb g.2}"
+    | _, _, _, _, _, _ => "bad-op"
+  | ["soltime", hour, eot, lon, tz, solar] =>
+    match floatBits? hour, floatBits? eot, floatBits? lon, floatBits? tz, bool? solar with
+    | some hour, some eot, some lon, some tz, some solar =>
+      "ok " ++ fb (Sun.solarTime hour eot (Sun.rad lon) tz solar)
+    | _, _, _, _, _ => "bad-op"
+  | ["sun", lat, lon, tz, north, spleap, solar, dtleap, mo, da, h, mi] =>
+    match cfg? lat lon tz north spleap, bool? solar, bool? dtleap, mo.toNat?, da.toNat?, h.toNat?, mi.toNat? with
+    | some c, some solar, some dl, some mo, some da, some h, some mi =>
+      showE (Sun.withDT ofN c (Cal.DT.make mo da h mi dl) solar)
+    | _, _, _, _, _, _, _ => "bad-op"
+  | ["sun_mdh", lat, lon, tz, north, spleap, solar, mo, da, hour] =>
+    match cfg? lat lon tz north spleap, bool? solar, mo.toNat?, da.toNat?, floatBits? hour with
+    | some c, some solar, some mo, some da, some f =>
+      match splitHour f with
+      | some (h, p) => showE (Sun.calcSun ofN c mo da h p solar)
+      | none => "err:value"
+    | _, _, _, _, _ => "bad-op"
+  | ["sun_hoy", lat, lon, tz, north, spleap, solar, hoy] =>
+    match cfg? lat lon tz north spleap, bool? solar, floatBits? hoy with
+    | some c, some solar, some f =>
+      match Py.ratOfFloatBits (f * 60.0).toBits with
+      | some x => showE (Sun.calcSunFromHoy ofN c x solar)
+      | none => "err:value"
+    | _, _, _ => "bad-op"
+  | ["sun_moy", lat, lon, tz, north, spleap, solar, moy] =>
+    match cfg? lat lon tz north spleap, bool? solar, moy.toInt? with
+    | some c, some solar, some m => showE (Sun.calcSunFromMoy ofN c m solar)
+    | _, _, _ => "bad-op"
+  | ["vec", alt, az, north] =>
+    match floatBits? alt, floatBits? az, floatBits? north with
+    | some alt, some az, some north =>
+      match Sun.mkSun (⟨1, 1, 0, 0, false⟩ : Cal.DT) alt az north with
+      | .ok s => showSun s
+      | .error e => showSErr e
+    | _, _, _ => "bad-op"
+  | ["trig", x] =>
+    -- libm probe: sin cos tan asin(sin) acos(cos) pow(x,2) of one float
+    match floatBits? x with
+    | some x => s!"ok {fb x.sin} {fb x.cos} {fb x.tan} {fb x.sin.asin} {fb x.cos.acos} {fb (x.pow 3.0)} {fb x.sqrt}"
+    | none => "bad-op"
+  | _ => "bad-op"
+
 end DrvC05
 
 def main : IO Unit := Drv.run DrvC05.handle
